@@ -43,6 +43,8 @@ def doc_of(c):
     mods = {}
     for m in c["modules"]:
         rects = FP.rects_of(m, 0, S)
+        if m.get("order"):  # the trunk stays first, the branches are listed in a generated order (not sorted along their side)
+            rects = [rects[0]] + [rects[1 + k] for k in m["order"] if 1 + k < len(rects)]
         rl = []
         for _, r in rects:
             cs = L.csr(r, c["unit"])
@@ -417,6 +419,8 @@ def run_floorplan(c):
             cls.append("multi-rect-fixed")
         if any(sum(1 for v in m["struct"].values() if v >= 2) >= 2 for m in c["modules"]):
             cls.append("two-sides-with-two-branches")
+        if any(m.get("order") and m["order"] != sorted(m["order"]) and m["kind"] != "soft" for m in c["modules"]):
+            cls.append("hard-branches-listed-out-of-order")
         branch = any(sum(m["struct"].values()) > 0 for m in c["modules"])
         return dict(nt=len(kinds) >= 2 and branch, cls=cls)
     finally:
@@ -427,10 +431,14 @@ def run_floorplan(c):
 def case_s(draw):
     c = draw(FP.floorplan())
     c["viol"] = [[draw(st.sampled_from(VIOLATIONS)), draw(_i(0, 40))] for _ in range(3)]
+    for m in c["modules"]:
+        nb = sum(m["struct"].values())
+        if nb >= 2 and draw(st.booleans()):
+            m["order"] = list(draw(st.permutations(list(range(nb)))))
     return c
 
 
 def subchecks():
     return [Sub("floorplans", run_floorplan, strategy=case_s(), n_quick=3000, n_thorough=60000, shrink_quick=True,
                 required=tuple("viol-" + k for k in VIOLATIONS) + ("kind-soft", "kind-hard", "kind-fixed", "multi-rect-hard",
-                                                                    "multi-rect-fixed", "ints-and-floats", "two-sides-with-two-branches"))]
+                                                                    "multi-rect-fixed", "ints-and-floats", "two-sides-with-two-branches", "hard-branches-listed-out-of-order"))]
